@@ -2,7 +2,8 @@ from _common import COMMON_NOTE
 
 META = {
  'title': 'ULA memory and I/O contention delays match the 48K/128K contention model',
- 'lean_modules': ['ZxVerif.Props.C04'],
+ 'lean_modules': ['ZxVerif.Props.C04', 'ZxVerif.Props.C04X'],
+ 'extract': ['Machine', 'Contended'],
  'modelled_code': ['rustzx-core/src/zx/machine/mod.rs (contention_clocks, port_is_contended, bank_is_contended, SPECS_48K/128K)',
                    'rustzx-core/src/zx/machine/specs.rs (derived line/frame lengths)',
                    'rustzx-core/src/zx/controller.rs (do_contention*, addr_is_contended, io_contention_first/last, wait_mreq, wait_no_mreq, wait_internal clock part, read_io/write_io timing)',
